@@ -11,7 +11,7 @@ from .c13 import PUNCT
 from trees import transform
 
 # how the tree of a case is obtained: API-built (token order / reversed child lists) or read by the export reader
-VIAS = [None, 'rev', 'export']
+VIAS = [None, 'rev', 'export', 'written']
 _via = [None]
 
 ID = 'C11'
